@@ -223,3 +223,66 @@ func H_C19_multiHistory() {
 		}
 	}
 }
+
+// H_C19_multiNested: a stack whose first element is itself a Multi loader (over in-memory
+// loader a) followed by in-memory loader b, under histories of three steps that edit the
+// files, add a third loader c to the NESTED stack, or clear it: the outer stack answers
+// from the first loader - in the nested stack's current order, then b - that has the path
+// now.
+//
+//gosym:reach found,none
+func H_C19_multiNested() {
+	a, b, c := jet.NewInMemLoader(), jet.NewInMemLoader(), jet.NewInMemLoader()
+	inner := NewLoader(a)
+	m := NewLoader(inner, b)
+	innerOrder := []*jet.InMemLoader{a}
+	content := map[*jet.InMemLoader]string{}
+	has := map[*jet.InMemLoader]bool{}
+	const p = "/page.jet"
+	for s := 0; s < 3; s++ {
+		tag := "s" + ndItoa(s)
+		switch ndChoice(tag+".op", 7) {
+		case 0:
+			a.Set(p, "A"+tag)
+			has[a], content[a] = true, "A"+tag
+		case 1:
+			b.Set(p, "B"+tag)
+			has[b], content[b] = true, "B"+tag
+		case 2:
+			c.Set(p, "C"+tag)
+			has[c], content[c] = true, "C"+tag
+		case 3:
+			a.Delete(p)
+			has[a] = false
+		case 4:
+			inner.AddLoaders(c)
+			innerOrder = append(innerOrder, c)
+		case 5:
+			inner.ClearLoaders()
+			innerOrder = nil
+		default: // no change: just another query
+		}
+		want, found := "", false
+		for _, l := range append(append([]*jet.InMemLoader{}, innerOrder...), b) {
+			if has[l] {
+				want, found = content[l], true
+				break
+			}
+		}
+		got := m.Exists(p)
+		vfAssert(got == found, "Exists is true iff a loader of the current (nested) stack has the path now")
+		f, err := m.Open(p)
+		if !found {
+			vfReach("none")
+			vfAssert(err != nil, "Open fails when no loader of the current stack has the path")
+			continue
+		}
+		vfReach("found")
+		vfAssert(err == nil, "whenever Exists(p) is true, Open(p) succeeds")
+		if err == nil {
+			bts, _ := ioutil.ReadAll(f)
+			f.Close()
+			vfAssert(string(bts) == want, "Open yields the content of the first loader, in the current order, that has the path")
+		}
+	}
+}
